@@ -2,6 +2,7 @@
 // series and exact variants.  Oracle monitor: float128 quadrature rhumb (oracle/ref_rhumb.hpp) evaluated next to
 // every call; law monitors: direct-of-inverse, inverse-of-direct, tie rule (east-going), pole rule (documented
 // latitude, NaN longitude and area), area additivity along one line, line == Direct, series == exact for |f|<=0.01.
+#include "harness/value_semantics.hpp"
 #include <GeographicLib/Rhumb.hpp>
 #include <map>
 #include <memory>
@@ -47,12 +48,12 @@ static EllObj& ell(double a, double f, bool want_series) {
     std::unique_ptr<EllObj> e(new EllObj);
     e->a = a; e->f = f;
     e->R.reset(new ref::RhumbRef<Q>(a, f));
-    e->exa.reset(new Rhumb(a, f, true));
+    e->exa.reset(vh::detached_new<Rhumb>([&] { return Rhumb(a, f, true); }, [&] { return Rhumb(a * 1.25, f > 0.5 ? 0.01 : 0.25, true); }));   // detached copy: harness/value_semantics.hpp
     e->Qm = (double)e->R->Qm; e->rm = e->Qm / (M_PI / 2);
     e->A2 = std::max(a * a, (double)e->R->c2);
     it = cache.emplace(key, std::move(e)).first;
   }
-  if (want_series && !it->second->ser) it->second->ser.reset(new Rhumb(a, f, false));
+  if (want_series && !it->second->ser) it->second->ser.reset(vh::detached_new<Rhumb>([&] { return Rhumb(a, f, false); }, [&] { return Rhumb(a * 1.25, 0.005, false); }));
   return *it->second;
 }
 struct EllPick { double a, f; bool series; std::string bucket; };
